@@ -167,8 +167,20 @@ fn gen_rule_doc(h: &rule::Harvest, rng: &mut Rng, depth: usize) -> (R, BTreeMap<
     let cfg = GenCfg { picks: std::cell::Cell::new(1000 + 100 * i), disjoint_vars: true, max_depth: 2, utils: utils.keys().cloned().collect(), allow_field: false, allow_range: false };
     utils.insert(format!("U{i}"), rule::gen_rule(h, &cfg, 0, rng));
   }
+  if rng.chance(1, 3) && !h.kinds.is_empty() {
+    let other = utils.keys().next().cloned();
+    utils.insert("UR".to_string(), rule::gen_recursive_util(h, "UR", other.as_ref(), rng));
+  }
   let cfg = GenCfg { picks: std::cell::Cell::new(0), disjoint_vars: true, max_depth: depth, utils: utils.keys().cloned().collect(), allow_field: true, allow_range: true };
-  let body = rule::gen_rule(h, &cfg, 0, rng);
+  let mut body = rule::gen_rule(h, &cfg, 0, rng);
+  if utils.contains_key("UR") && rng.chance(2, 3) {
+    let m = R::Matches("UR".to_string());
+    body = match rng.below(3) {
+      0 => R::Any(vec![body, m]),
+      1 => m,
+      _ => R::Has(Box::new(m), rule::Stop::End, None),
+    };
+  }
   // give the rule a kind so that RuleConfig accepts it and the accelerations are active
   let anchor = if rng.chance(1, 2) && !h.patterns.is_empty() {
     let p = rng.pick(&h.patterns).clone();
